@@ -315,6 +315,10 @@ package util
 //@   safe
 //@   pure
 //@   ensures err == nil ==> len(result) <= HostnameMaxLen - 2                 :name_fits
+// C09: the encoded request (codec alphabets and header characters contain no dot) gets dots only from Dotify
+//@   property C09
+//@   requires forall i :: 0 <= i && i < len(data) ==> data[i] != '.'          :data_has_no_dots
+//@   ensures err != nil ==> len(result) == 0                                  :no_name_on_error
 
 //@ func Dotify
 //@   property C09, C10, C12
@@ -350,9 +354,14 @@ package util
 //@   terminates
 //@   requires msg != nil && len(msg.Question) >= 1 && len(domain) <= 180
 //@   modifies msg.Answer, msg.Answer[*], msg.Authoritative
-//@   loop 1 vars data []byte
+//@   loop 1 vars data []byte, order uint16
 //@   loop 1 invariant msg != nil && len(msg.Question) >= 1 && (spec_sameref(msg.Answer, old(msg.Answer)) || spec_fresh(msg.Answer))
 //@   loop 1 decreases len(data)
+// C10: an A record carries its order in ONE octet: the records of one answer are numbered 1, 2, ... without
+// wrapping, i.e. at most 255 of them, one per loop iteration (a 256th would be numbered 0 and sort first)
+//@   property C10
+//@   loop 1 invariant order <= 255 && len(msg.Answer) == old(len(msg.Answer)) + int(order)               :order_tag_fits_its_octet
+//@   ensures err == nil ==> len(msg.Answer) - old(len(msg.Answer)) <= 255                                 :at_most_255_numbered_records
 
 //@ func WrapDnsResponseAAAA
 //@   property C10, C12
